@@ -193,3 +193,5 @@ def run(ctx):
     ctx.cov["rule"] = ("T1: (axis, ndim) box; leg A: add/multiply/maximum/minimum reduce on random COO (rank 0-4, fills {0,1,2,-1}) over random axis "
                        "tuples (any order, negative, repeated/out of range), keepdims; model vs implementation on representation; leg C: 15 reductions x "
                        "6 dtypes x COO/GCXS vs NumPy; non-trivial = non-empty array; distinct by content hash")
+    import extra_ops  # operation tables closing the measured coverage gaps (tools/coverage_audit.py; coverage/API_COVERAGE.md)
+    extra_ops.run(ctx, PID)
